@@ -16,7 +16,7 @@ try:
         print("MUTANT DOES NOT COMPILE:\n" + b.stderr[:600])
     else:
         for p in props:
-            r = subprocess.run(['/verif/bin/ibcheck', '-prop', p, '-verif', '/tmp/mut-verif'], capture_output=True, text=True)
+            r = subprocess.run(['/verif/bin/ibcheck', '-prop', p, '-verif', '/verif', '-out', '/tmp/mut-verif'], capture_output=True, text=True)
             lines = [l for l in r.stdout.splitlines() if l.startswith('  VIOLATED') or l.startswith('  UNDECIDED') or l.startswith(p)]
             print('\n'.join(l[:230] for l in lines) or '(no output)')
             print("exit=%d" % r.returncode)
